@@ -170,4 +170,12 @@ def run(rec, cfg):
 def replay(rec, cfg, w):
     MC.attach_clone("C13")
     root = S.build(S.from_json(w["tree"]))
+    ids = w.get("ids_preorder")
+    if ids:
+        for n, i in zip(S.nodes_preorder(root), ids):
+            n.id = i
     drive_tree(rec, root, cfg.rng("replay"))
+    if w.get("node_path") is not None:
+        n = S.follow(root, list(w["node_path"]))
+        if n is not None:
+            n.clone_from_root()
